@@ -684,8 +684,9 @@ func planC01(tier string) *Plan {
 	}
 	cells = append(cells, cellSpec{roles: []int{1}, amevs: am, reqs: []int{1}, apis: []int{apiRecoveryMessage}, extra: map[string]int{"rcv": 1}},
 		cellSpec{roles: []int{1}, amevs: am, reqs: []int{0}, apis: []int{apiRecoveryMessage}, extra: map[string]int{"rc": 1}},
-		cellSpec{roles: []int{1}, amevs: am, reqs: []int{0}, apis: []int{apiRecoveryMessage}, extra: map[string]int{"rreq": 1}})
+		cellSpec{roles: []int{1}, amevs: []int{0}, reqs: []int{0}, apis: []int{apiRecoveryMessage}, extra: map[string]int{"rreq": 1}})
 	if tier == "thorough" {
+		cells = append(cells, cellSpec{roles: []int{1}, amevs: []int{1}, reqs: []int{0}, apis: []int{apiRecoveryMessage}, extra: map[string]int{"rreq": 1}})
 		cells = append(cells, cellSpec{roles: []int{0, 1, 2, -1}, amevs: am, reqs: []int{0, 1}, apis: allApis})
 		cells = append(cells, recCells([]int{0, 1, 2}, am, []int{0, 1})...)
 	}
